@@ -228,7 +228,6 @@ class StingyConfigurator(pg.All):
         super().__init__(*propositions, variable=id)
 
     @property
-    @functools.lru_cache
     def ge_polyhedron(self) -> pnd.ge_polyhedron_config:
 
         """
@@ -267,7 +266,6 @@ class StingyConfigurator(pg.All):
             )
         )
 
-    @functools.lru_cache
     def leafs(self) -> typing.List[puan.variable]:
 
         """
